@@ -277,6 +277,17 @@ fn items(args: &Args) -> Vec<Item> {
             }
         }
     }
+    // long axes (search windows, block-wise scans): a few brackets of a 10- and a 12-point axis
+    for (n, cis) in [(10usize, (0..9).collect::<Vec<usize>>()), (12, vec![1, 10]), (18, vec![0, 8, 16])] {
+        for ci in cis {
+            v.push(Item { cfg: Cfg { kind: Kind::Linear, nx: n, ny: 0, trailing: vec![], call: Call::Scalar, extrapolate: ci % 4 == 0, default_axes: false, dynamic: false, timeout_ms: 3 * timeout_ms }, ci, cj: 0 });
+        }
+    }
+    for (nx, ny, cells) in [(10usize, 3usize, vec![(0usize, 0usize), (8, 1), (4, 1)]), (3, 10, vec![(0, 0), (1, 8), (0, 5)])] {
+        for (ci, cj) in cells {
+            v.push(Item { cfg: Cfg { kind: Kind::Bilinear, nx, ny, trailing: vec![], call: Call::Scalar, extrapolate: (ci + cj) % 2 == 1, default_axes: false, dynamic: false, timeout_ms: 3 * timeout_ms }, ci, cj });
+        }
+    }
     for (nx, ny) in if thorough { vec![(3, 3), (3, 4), (4, 3), (3, 2), (4, 2), (4, 4), (2, 4)] } else { vec![(3, 3), (3, 4), (4, 3), (3, 2), (4, 2)] } {
         for extrapolate in [false, true] {
             for ci in 0..nx - 1 {
